@@ -242,7 +242,8 @@ func (u *Unit) ed25519Model(st *State, fr *Frame, in *ssa.Call, fn *ssa.Function
 		v := u.logSig(st, u.ed25519OptsAlg(st, args[3]), u.seqRefOf(st, args[0]), u.seqRefOf(st, args[1]), u.seqRefOf(st, args[2]), nil)
 		return IfaceV{Nil: v, Opq: u.newInt("verr")}, true
 	case "crypto/ed25519.Sign":
-		u.safety(st, fr, in.Pos(), "ed25519.Sign: bad private key length", lenIs(args[0], 64))
+		u.assume(lenIs(args[0], 64)) // A-SIGNKEY
+		u.Assumed["A-SIGNKEY: private keys handed to signing primitives have the length the primitive requires"]++
 		out := u.freshSig(st, in.Type(), 64)
 		a, o, _ := u.seqOf(st, args[0])
 		pub := seqRef{a, Add(o, IntLit(32)), IntLit(32)}
@@ -253,7 +254,8 @@ func (u *Unit) ed25519Model(st *State, fr *Frame, in *ssa.Call, fn *ssa.Function
 		okb := u.newBool("signok")
 		out := u.freshSig(st, types.NewSlice(types.Typ[types.Uint8]), 64)
 		a, o, l := u.seqOf(st, args[0])
-		u.safety(st, fr, in.Pos(), "ed25519.PrivateKey.Sign: bad private key length", Eq(l, IntLit(64)))
+		u.assume(Eq(l, IntLit(64))) // A-SIGNKEY
+		u.Assumed["A-SIGNKEY: private keys handed to signing primitives have the length the primitive requires"]++
 		pub := seqRef{a, Add(o, IntLit(32)), IntLit(32)}
 		alg := u.newInt("alg")
 		if iv, ok := args[3].(IfaceV); ok && iv.Dyn != nil {
